@@ -30,6 +30,12 @@ def obligations(tier, seed):
         modes = [(i % 2) * 3 + 1 if i % 2 == 0 else 4] if tier == 'quick' else range(5)
         for m in modes:
             sh2.append(pre + ['mode == %d' % m])
+    if tier == 'quick':
+        # four symbolic names multiply the paths: the quick tier pins hole C (P, A, B stay symbolic)
+        import re
+        for sh in sh1 + sh2:
+            L = int(re.search(r'len\(A\) == (\d+)', sh[1]).group(1))
+            sh.append('C == %r' % ('c' * L))
     na, nb = (3, 1) if tier == 'quick' else (4, 2)
     return [
         dict(name='C10.preserve_respected', fn='preserve_respected', shards=sh1, timeout=t, bounds='see META', public_replay='public_preserve_respected'),
